@@ -17,7 +17,7 @@ from common.util import Result, f2b, b2f, fl, err_kind
 from common import nets, nets_g, batch_g
 
 ID = 'C19'
-N = {'quick': 260, 'thorough': 9000}
+N = {'quick': 320, 'thorough': 9000}
 LEAN_MODULES = ['GnpyProofs.Props.C19']
 THEOREMS = [f'Gnpy.Response.{t}' for t in (
     'one_response_per_request', 'pathResult_id', 'aggregation_spec', 'aggregation_exactly_once',
@@ -148,7 +148,11 @@ def run(case, drv):
         impl_err = None
     except (ServiceError, EquipmentConfigError, ValueError) as e:
         impl_err = err_kind(e)
-    res.cmp_exact('planning.error_kind', impl_err, exp_err)
+    model_err = drv.ask('c19.batch_check', trx_known=[r['type'] in eq['Transceiver'] for r in reqs], ids=[r['id'] for r in reqs],
+                        endpoints_known=[r['dst'] <= case['n'] + 1 and r['src'] <= case['n'] + 1 for r in reqs],
+                        strict_unknown_include=[bool(r['include']) and r['strict'] and any(
+                            x not in {n.uid for n in net.nodes()} for x in r['include']) for r in reqs])
+    res.cmp_exact('planning.error_kind', impl_err, model_err)
     if impl_err != exp_err:
         res.fail(f'batch check: a batch with {mal or "valid"} requests gave {impl_err}, must give {exp_err}')
     res.stats.update({'batches': 1, f'batch_{impl_err or "accepted"}': 1})
